@@ -80,9 +80,16 @@ let limiter_core o f : string =
           let x = int_of_z b.b_tok + int_of_z o.o_limit * (!t - last) in
           if abs (x - int_of_z o.o_burst * 1000000000) < band then len_amb := true
         end) !tbl;
+      (* a key whose bucket state is ambiguous (an earlier decision inside the band): the collector's "has refilled
+         completely" test may come out differently on the two sides, unless the entry has been idle for so long that
+         every possible bucket state is full (tokens > -rate always): rate * idle >= (burst + 1) tokens *)
+      let sure = List.filter (fun k -> match lim_lookup k !tbl with
+        | Some b -> int_of_z o.o_limit * (!t - int_of_z b.b_seen) >= (int_of_z o.o_burst + 1) * 1000000000
+        | None -> false) !tainted in
+      if List.exists (fun k -> lim_lookup k !tbl <> None && not (List.exists (addr_eqb k) sure)) !tainted then len_amb := true;
       tbl := fst (lim_step o !tbl e);
-      (* a collected entry is fresh again on both sides *)
-      tainted := List.filter (fun k -> lim_lookup k !tbl <> None) !tainted
+      (* a surely collected entry is fresh again on both sides *)
+      tainted := List.filter (fun k -> not (lim_lookup k !tbl = None && List.exists (addr_eqb k) sure)) !tainted
     | _ -> failwith ("bad op " ^ op)) ops;
   let h = List.rev !hist in
   (* spec: the window bound of C15_bound / C15_bound_gc on the model's own decisions, a few windows per key *)
